@@ -10,6 +10,7 @@ import DeepModel.Props.C03
 #print axioms C03.c03_slot_never_empty
 #print axioms C03.c03_count
 #print axioms C03.c03_independent
+#print axioms C03.c03_unmatchable_isolated
 #print axioms C03.c03_stream
 #print axioms C03.c03_none
 #print axioms C03.c03_thread
